@@ -3,7 +3,7 @@ From Coq Require Import ZArith List Bool Lia.
 Import ListNotations.
 Require Import MV.C01.Defs MV.C01.Gen MV.C01.Model MV.C01.Spec MV.C01.Pure
         MV.C01.ProofsMaps MV.C01.ProofsCorners MV.C01.ProofsTables MV.C01.ProofsAccess MV.C01.ProofsEdges
-        MV.C01.ProofsQuery MV.C01.ProofsSort MV.C01.ProofsRing MV.C01.ProofsBorder MV.C01.ProofsMore MV.C01.ProofsVerts.
+        MV.C01.ProofsQuery MV.C01.ProofsSort MV.C01.ProofsRing MV.C01.ProofsBorder MV.C01.ProofsMore MV.C01.ProofsVerts MV.C01.ProofsKind.
 From Coq Require Import Sorting.Permutation.
 Open Scope Z_scope.
 
@@ -329,3 +329,105 @@ Proof.
   destruct (edges_ok_b_sound nv faces edges (proj1 Hw) H2) as (Hv & He).
   split; [exact Hw|]. split; [|exact He]. unfold mesh_of. cbn. auto.
 Qed.
+
+(* ------------------------------------------------------------------ round 7 *)
+(* a query on a freshly built mesh is answered exactly as after any script of other queries *)
+Lemma fresh_as_later nv faces m f :
+  wf_mesh nv faces -> mesh_of nv faces m ->
+  forall qs q, snd (query_step m f empty_cache q) = snd (query_step m f (run_script m f qs) q).
+Proof.
+  intros Hw Hm qs q. rewrite (query_order_independent_wf nv faces m f Hw Hm qs q).
+  exact (query_order_independent_wf nv faces m f Hw Hm [] q).
+Qed.
+
+(* the kind of the sorted corner ring IS the border classification the border API gives for the vertex *)
+Lemma ring_kind_is_border_class nv faces m :
+  wf_mesh nv faces -> mesh_of nv faces m -> edges_exact faces (m_edges m) ->
+  forall A l, 0 <= A < nv -> p_vertex_to_corners m true A = Ok (Some l) -> l <> [] ->
+    ring_spec faces A l
+    /\ (ring_open faces l <-> p_is_vertex_on_border m true A = Ok true)
+    /\ (ring_closed faces l <-> p_is_vertex_on_border m true A = Ok false).
+Proof.
+  intros Hw Hm Hex A l HA El Hne.
+  destruct (vertex_ring_sorted nv faces m Hw Hm Hex A HA) as (l' & El' & Hring & _).
+  rewrite El in El'. inversion El'; subst l'.
+  destruct (compute_total nv faces m true Hw Hm) as (T & HT).
+  rewrite (is_vertex_on_border_correct nv faces m true T (proj1 Hw) Hm HT A).
+  pose proof (ring_open_iff_border nv faces (m_edges m) (proj1 Hw) Hex A l Hring Hne) as H1.
+  pose proof (ring_closed_iff_interior nv faces (m_edges m) (proj1 Hw) Hex A l Hring Hne) as H2.
+  split; [exact Hring|]. split.
+  - rewrite H1. split; [intros ->; reflexivity|intros E; inversion E; reflexivity].
+  - rewrite H2. split; [intros ->; reflexivity|intros E; inversion E; reflexivity].
+Qed.
+
+(* both kinds occur: vertex 0 of the fan example is a border vertex with an open fan, vertex 0 of the tetrahedron is
+   interior with a closed ring *)
+Example ex_ring_kinds :
+  ring_open ex_faces [6; 3; 0] /\ pure_answer (build_mesh 6 ex_faces) true (Q_is_vertex_on_border 0) = ABool true
+  /\ ring_closed ex_closed [3; 9; 0] /\ pure_answer (build_mesh 4 ex_closed) true (Q_is_vertex_on_border 0) = ABool false.
+Proof. repeat split; vm_compute; reflexivity. Qed.
+Example ex_fresh_as_later :
+  snd (query_step (build_mesh 6 ex_faces) true empty_cache (Q_half_edge_to_corner 2 0))
+  = snd (query_step (build_mesh 6 ex_faces) true
+           (run_script (build_mesh 6 ex_faces) true [Q_boundary_vertices; Q_clear; Q_vertex_to_corners 0]) (Q_half_edge_to_corner 2 0)).
+Proof. vm_compute. reflexivity. Qed.
+
+(* every query the property names is ANSWERED (no exception value) when it names an element of the mesh, sorting on or off *)
+Definition named_queries_answered (nv : Z) (faces : list (list Z)) (m : mesh) (f : bool) : Prop :=
+  (forall c, valid_corner faces c ->
+     exists a b o, p_next_corner m f c = Ok (Some a) /\ p_previous_corner m f c = Ok (Some b) /\ p_opposite_corner m f c = Ok o)
+  /\ (forall u v, exists o l i, p_direct_face m f u v = Ok o /\ p_edge_to_faces m f u v = Ok l /\ p_edge_id m f u v = Ok i)
+  /\ (forall A, 0 <= A < nv ->
+       exists cs vs fs es, p_vertex_to_corners m f A = Ok (Some cs) /\ p_vertex_to_vertices m f A = Ok vs
+                           /\ p_vertex_to_faces m f A = Ok fs /\ p_vertex_to_edges m f A = Ok es)
+  /\ (forall F lF, zth faces F = Some lF -> exists l, p_face_to_faces m f F = Ok l)
+  /\ (forall vs, exists o, p_face_id m f vs = Ok o)
+  /\ (exists be ie bv iv, p_boundary_edges m f = Ok be /\ p_interior_edges m f = Ok ie
+                          /\ p_boundary_vertices m f = Ok bv /\ p_interior_vertices m f = Ok iv)
+  /\ (forall u v, exists b, p_is_edge_on_border m f u v = Ok b)
+  /\ (forall x, exists b, p_is_vertex_on_border m f x = Ok b).
+
+Lemma vertex_rings_answered nv faces m f T :
+  wf_mesh nv faces -> mesh_of nv faces m -> compute_connectivity m f = Ok T ->
+  forall A, 0 <= A < nv ->
+    exists cs vs, zget A (t_adjV2Cn T) = Some cs /\ zget A (t_adjV2V T) = Some vs /\ (forall c, In c cs -> valid_corner faces c).
+Proof.
+  intros Hw Hm HT A HA. destruct f.
+  - destruct (compute_sorted_spec nv faces m Hw Hm) as (T' & ET' & _ & HR). rewrite HT in ET'. inversion ET'; subst T'.
+    destruct (HR A HA) as (l & vs & El & Hl & Ev & _). exists l, vs. split; [exact El|]. split; [exact Ev|].
+    intros c Hc. destruct Hl as (_ & Hs & _). apply Hs, corners_at_In in Hc as (x & Hx & E & _). exists x. auto.
+  - destruct (compute_unsorted_spec nv faces m (proj1 Hw) Hm) as (T' & ET' & S). rewrite HT in ET'. inversion ET'; subst T'.
+    assert (Hr : in_range nv A = true) by (unfold in_range; lia).
+    exists (corners_at faces A), (nbrs (m_edges m) A).
+    rewrite (ts_v2c _ _ _ _ S), (ts_v2v _ _ _ _ S), Hr. split; [reflexivity|]. split; [reflexivity|].
+    intros c Hc. apply corners_at_In in Hc as (x & Hx & E & _). exists x. auto.
+Qed.
+
+Lemma named_answered nv faces m f :
+  wf_mesh nv faces -> mesh_of nv faces m -> named_queries_answered nv faces m f.
+Proof.
+  intros Hw Hm. destruct (compute_total nv faces m f Hw Hm) as (T & HT). pose proof (proj1 Hw) as Hwf.
+  pose proof (tables_correct nv faces m f T Hwf Hm HT) as (Tp & Tn & To & _ & _ & Tdf & _ & Tef & _ & _ & _ & Tei & Tfi).
+  destruct (border_partition nv faces m f T Hwf Hm HT) as (be & ie & bv & iv & B1 & B2 & B3 & B4 & _ & _ & B7 & _ & _ & _ & B11).
+  unfold named_queries_answered. split; [|split; [|split; [|split; [|split; [|split; [|split]]]]]].
+  - intros c (x & Hx & <-). rewrite Tn, Tp, To. rewrite (L_next faces x Hx), (L_prev faces x Hx).
+    exists (next_id x), (prev_id x), (sp_opp faces (cid x)). auto.
+  - intros u v. rewrite Tdf, Tef, Tei. do 3 eexists. repeat split; reflexivity.
+  - intros A HA. destruct (vertex_rings_answered nv faces m f T Hw Hm HT A HA) as (cs & vs & Ec & Ev & Hv).
+    assert (P1 : p_vertex_to_corners m f A = Ok (Some cs)) by (rewrite (vertex_to_corners_eq m f T A HT), Ec; reflexivity).
+    assert (P2 : p_vertex_to_vertices m f A = Ok vs) by (rewrite (vertex_to_vertices_eq m f T A HT), Ev; reflexivity).
+    exists cs, vs. eexists. eexists. split; [exact P1|]. split; [exact P2|]. split.
+    + exact (vertex_to_faces_correct nv faces m f T Hm HT A cs P1 Hv).
+    + exact (vertex_to_edges_correct m f T HT A vs P2).
+  - intros F lF Ez. assert (Hne : lF <> []).
+    { destruct Hwf as (Hf & _). rewrite Forall_forall in Hf. destruct (Hf lF (zth_In _ _ _ Ez)) as (Hl & _).
+      intros ->. cbn in Hl. lia. }
+    destruct (face_to_faces_correct nv faces m f T Hwf Hm HT F lF Ez Hne) as (cs & _ & E). eauto.
+  - intros vs. rewrite Tfi. eexists. reflexivity.
+  - exists be, ie, bv, iv. auto.
+  - intros u v. rewrite B7. eexists. reflexivity.
+  - intros x. rewrite B11. eexists. reflexivity.
+Qed.
+
+Example ex_named_answered : named_queries_answered 6 ex_faces (build_mesh 6 ex_faces) true.
+Proof. apply named_answered; [exact ex_wf_mesh|apply build_mesh_of, ex_wf_faces]. Qed.
